@@ -337,7 +337,7 @@ class LiteralMethod(DeserializationMethod):
                 for cls in self.types:
                     try:
                         return self.value_map[cls, self.coercer(cls, data)]
-                    except IndexError:
+                    except (KeyError, TypeError, ValidationError):
                         pass
             raise ValidationError(format_error(self.error, data))
         except TypeError:
